@@ -1,3 +1,4 @@
+import WS.Proofs.IntPredFar
 import WS.Model.Close
 import WS.Model.Reader
 import WS.Gen.IntFns
@@ -21,22 +22,39 @@ theorem validWire_iff (code : Int) : validWireCloseCode code = true ↔ Sendable
   unfold Sendable
   exact WS.Proofs.Close.validWire_arith code
 
-/-- per-run obligation: the function regenerated from close.go equals the model on every integer. -/
+/-- per-run obligation, part 1: every constant of the function regenerated from close.go lies in [0, 5000]. -/
+theorem gen_validWire_window : WS.Gen.validWireCloseCode.within 0 5000 = true := by decide
+
+/-- per-run obligation, part 2: on the window [-1, 5001] the regenerated function and the model agree
+(kernel evaluation of all 5003 integers, by binary splitting). -/
+theorem gen_validWire_on_window :
+    allIn (fun n => decide (WS.Gen.validWireCloseCode.eval ((n : Int) - 1) = some (validWireCloseCode ((n : Int) - 1)))) 16 0 5003 = true := by
+  decide +kernel
+
+/-- per-run obligation: the function regenerated from close.go equals the model on **every** integer — whatever
+shape it has: inside the window by evaluation, outside it because an integer predicate is constant beyond its
+constants (`IntPred.eval_above / eval_below`) and so is the model (`validWire_arith`). -/
 theorem gen_validWire (code : Int) :
     WS.Gen.validWireCloseCode.eval code = some (validWireCloseCode code) := by
-  have hm := WS.Proofs.Close.validWire_arith code
-  cases hv : validWireCloseCode code with
-  | true =>
-    have hs := hm.1 hv
-    simp [WS.Gen.validWireCloseCode, IntPred.eval, ICond.eval]
-    repeat' split
-    all_goals (intros; first | rfl | (exfalso; omega) | (simp at *; omega))
-  | false =>
-    have hs : ¬ ((1000 ≤ code ∧ code ≤ 1014 ∧ code ≠ 1004 ∧ code ≠ 1005 ∧ code ≠ 1006) ∨
-        (3000 ≤ code ∧ code ≤ 4999)) := fun h => by have := hm.2 h; rw [hv] at this; cases this
-    simp [WS.Gen.validWireCloseCode, IntPred.eval, ICond.eval]
-    repeat' split
-    all_goals (intros; first | rfl | (exfalso; omega) | (simp at *; omega))
+  have hm := WS.Proofs.Close.validWire_arith
+  have model_false : ∀ c : Int, (c < 0 ∨ 5000 < c) → validWireCloseCode c = false := by
+    intro c hc
+    cases hv : validWireCloseCode c with
+    | false => rfl
+    | true => have := (hm c).1 hv; omega
+  have win : ∀ c : Int, -1 ≤ c → c ≤ 5001 → WS.Gen.validWireCloseCode.eval c = some (validWireCloseCode c) := by
+    intro c h1 h2
+    have h := allIn_spec _ 16 0 5003 gen_validWire_on_window (c + 1).toNat (by omega) (by omega)
+    have hi : (((c + 1).toNat : Nat) : Int) = c + 1 := Int.toNat_of_nonneg (by omega)
+    rw [hi, Int.add_sub_cancel] at h
+    exact of_decide_eq_true h
+  by_cases hin : -1 ≤ code ∧ code ≤ 5001
+  · exact win code hin.1 hin.2
+  · by_cases hhi : 5001 < code
+    · rw [IntPred.eval_above _ gen_validWire_window code 5001 (by omega) (by omega), win 5001 (by omega) (by omega),
+        model_false 5001 (by omega), model_false code (by omega)]
+    · rw [IntPred.eval_below _ gen_validWire_window code (-1) (by omega) (by omega), win (-1) (by omega) (by omega),
+        model_false (-1) (by omega), model_false code (by omega)]
 
 /-- per-run obligation: the constants the models use are the ones in the source. -/
 theorem facts :
